@@ -317,6 +317,30 @@ def hetero_condition_ob(cls):
               f"{A_}::HeteroscedasticConditional.get_conditional_cov", group="hetero")
 
 
+def link_ob(cls):
+    """the link function of each heteroscedastic class is the documented one - exp(h), cosh(h) - 1, 1(h >= 0), max(h, 0).  The conditional-covariance
+    obligation evaluates the library's own link_function for its reference, and the expected noise is computed by separate closed forms, so an edit of
+    the link alone (threshold of the step, `cosh(h) - 1` -> `cosh(h)`) was reported by no check (mutation sweep)."""
+    def run():
+        from ..intrinsics import _compare_vals
+        I = build.new_interp()
+        c = make_approx(I, cls, "c")
+        h = nf.atom("h", [sym("N"), sym("Dk")])
+        got = I.call_method(c, "link_function", [h])
+        if "Exp" in cls:
+            ref = nf.elementwise("Exp", h)
+        elif "Cosh" in cls:
+            ref = nf.add(nf.elementwise("Cosh", h), nf.const(-1))
+        elif "Heaviside" in cls:
+            ref = _compare_vals("Ge", h, 0)
+            ref = Val(ref.axes, ref.terms)
+            got = Val(got.axes, got.terms)
+        else:
+            ref = nf.elementwise("Relu", h)
+        return [tuple(z) for z in nf.diff(got, ref, what="link(h)")[:4]], dict(funcs=funcs_of(I))
+    return Ob(f"link/{cls}", run, "link_function(h) is the documented link: exp(h) / cosh(h) - 1 / 1(h >= 0) / max(h, 0)", f"{A_}::{cls}.link_function", group="hetero")
+
+
 def obligations(tier):
     obs = []
     for cls in FEATURE:
@@ -325,6 +349,7 @@ def obligations(tier):
         obs.append(feature_moments_ob(cls))
     for cls in HETERO:
         obs.append(hetero_condition_ob(cls))
+        obs.append(link_ob(cls))
         obs.append(hetero_moments_ob(cls))
     for cls in FEATURE + HETERO:
         obs.append(assembly_ob(cls))
@@ -333,7 +358,7 @@ def obligations(tier):
     return obs
 
 
-FLOORS = {"group:moments": 6, "group:assembly": 6, "group:kernel": 4, "group:hetero": 4, "group:summary": 2}
+FLOORS = {"group:moments": 6, "group:assembly": 6, "group:kernel": 4, "group:hetero": 8, "group:summary": 2}
 LEVEL = "other"
 EXPLANATION = ("Partial: the ASSEMBLY of the matched moments is decided (E[y], Cov[y], E[yx'] as polynomials in kernel / noise expectations computed by independent "
                "reference formulas; block layout and kernel layouts; link wiring; unit-height kernels; heteroscedastic conditional covariance) for all four links "
